@@ -1,36 +1,69 @@
-(* P_C07.v — C07 (first stage): basic facts of the export map. *)
+(* P_C07.v — C07: property theorems only (proofs in Reorder.v / CirqThm.v). *)
 From Coq Require Import NArith ZArith List Bool Arith Lia.
-From FQE Require Import Car Fock GaussZ Bits Addr Cirq.
+From FQE Require Import Car Fock GaussZ Bits Addr Reorder Cirq Model CirqThm.
 Import ListNotations.
 
-(* the reordering sign is that of the ladder operators: building a determinant by
-   creators never fails on distinct modes below nq, and preserves the length *)
-Theorem C07_build_length : forall modes nq s d, jw_build nq modes = Some (s, d) -> length d = nq.
+(* applying any ladder operator before the export equals applying its qubit image
+   (the ladder operator of mode 2i+sigma in mode order) after it — for every orbital
+   count, every determinant of every sector (so also across sectors), signs included *)
+Theorem C07_export_intertwines_cre : forall norb beta i (d : det), i < norb -> length d = 2 * norb ->
+  slift (2 * norb) (pi_conv norb) (cre (pos_of norb beta i) d) 0 =
+  sbind (cre (mode_of beta i)) (build (2 * norb) (pi_conv norb) 0 d).
+Proof. exact export_intertwines_cre. Qed.
+Print Assumptions C07_export_intertwines_cre.
+
+Theorem C07_export_intertwines_ann : forall norb beta i (d : det), i < norb -> length d = 2 * norb ->
+  slift (2 * norb) (pi_conv norb) (ann (pos_of norb beta i) d) 0 =
+  sbind (ann (mode_of beta i)) (build (2 * norb) (pi_conv norb) 0 d).
+Proof. exact export_intertwines_ann. Qed.
+Print Assumptions C07_export_intertwines_ann.
+
+(* each determinant goes to exactly one basis state, whose occupied modes are the
+   spin orbitals it occupies; the export never fails *)
+Theorem C07_export_total : forall norb c a b, exists s ix, export_det norb c a b = Some (s, ix).
+Proof. exact export_det_total. Qed.
+Print Assumptions C07_export_total.
+
+Theorem C07_export_occupation : forall norb d s e beta i, length d = 2 * norb -> i < norb ->
+  build (2 * norb) (pi_conv norb) 0 d = Some (s, e) ->
+  nth (mode_of beta i) e false = nth (pos_of norb beta i) d false.
+Proof. exact build_conv_occupation. Qed.
+Print Assumptions C07_export_occupation.
+
+(* isometry: distinct determinants never share a Jordan-Wigner index, and the sign has modulus one *)
+Theorem C07_export_jw_injective : forall norb a b a' b' s s' ix,
+  (a < 2 ^ N.of_nat norb)%N -> (a' < 2 ^ N.of_nat norb)%N -> (b < 2 ^ N.of_nat norb)%N -> (b' < 2 ^ N.of_nat norb)%N ->
+  export_det norb (jw_code (2 * norb)) a b = Some (s, ix) ->
+  export_det norb (jw_code (2 * norb)) a' b' = Some (s', ix) -> a = a' /\ b = b'.
 Proof.
-  unfold jw_build. induction modes as [|q r IH]; intros nq s d H; simpl in H.
-  - unfold sid in H. inversion H; subst. apply repeat_length.
-  - unfold scomp in H.
-    destruct (string_fn (map (fun q0 => mkop q0 true) r) (repeat false nq)) as [[s1 d1]|] eqn:E; [|discriminate].
-    unfold op_fn in H. simpl in H. destruct (cre q d1) as [[s2 d2]|] eqn:E2; [|discriminate].
-    inversion H; subst. apply cre_length in E2. rewrite E2. eapply IH; eauto.
+  intros norb a b a' b' s s' ix Ha Ha' Hb Hb' H1 H2.
+  exact (det_conv_inj norb a b a' b' Ha Ha' Hb Hb' (export_det_jw_injective norb a b a' b' s s' ix H1 H2)).
 Qed.
-Print Assumptions C07_build_length.
+Print Assumptions C07_export_jw_injective.
+
+Theorem C07_sign_is_unit : forall s z, gznorm2 (gsg s z) = gznorm2 z.
+Proof. exact gsg_norm. Qed.
+Print Assumptions C07_sign_is_unit.
+
+(* importing the exported vector reads back exactly the original amplitude of every determinant *)
+Theorem C07_import_export_amplitude : forall norb a b s ix v,
+  (forall a0 b0 z, In (a0, b0, z) v -> (a0 < 2 ^ N.of_nat norb)%N /\ (b0 < 2 ^ N.of_nat norb)%N) ->
+  (a < 2 ^ N.of_nat norb)%N -> (b < 2 ^ N.of_nat norb)%N ->
+  export_det norb (jw_code (2 * norb)) a b = Some (s, ix) ->
+  gsg s (lookupN ix (export norb (jw_code (2 * norb)) v)) = lookupAB a b v.
+Proof. exact import_export_amplitude. Qed.
+Print Assumptions C07_import_export_amplitude.
 
 (* the JW code is the identity encoding *)
-Lemma parity_in_single d k : parity_in d [k] = nth k d false.
-Proof. unfold parity_in. simpl. destruct (nth k d false); reflexivity. Qed.
-
 Theorem C07_jw_code_identity : forall d, encode (jw_code (length d)) d = d.
-Proof.
-  intros d. unfold encode, jw_code. rewrite map_map.
-  apply nth_ext with (d := false) (d' := false); [rewrite map_length, seq_length; reflexivity|].
-  intros n Hn. rewrite map_length, seq_length in Hn.
-  rewrite (nth_indep _ false (parity_in d [0])) by (rewrite map_length, seq_length; exact Hn).
-  rewrite (map_nth (fun k => parity_in d [k]) (seq 0 (length d)) 0 n).
-  rewrite seq_nth by exact Hn. simpl. apply parity_in_single.
-Qed.
+Proof. exact jw_code_identity. Qed.
 Print Assumptions C07_jw_code_identity.
 
-(* non-vacuity: |A={0,1},B={0,1}> on 2 orbitals has sign -1 and index 15 *)
+(* non-vacuity: |A={0,1},B={0,1}> on 2 orbitals has sign -1 and index 15; a state
+   where the intertwining has non-trivial signs on both sides *)
 Example C07_export_example : export_det 2 (jw_code 4) 3%N 3%N = Some (true, 15%N).
 Proof. vm_compute. reflexivity. Qed.
+Example C07_intertwine_example :
+  slift 4 (pi_conv 2) (cre (pos_of 2 true 1) [true; false; false; true]) 0 = Some (true, [false; true; true; true])
+  /\ build 4 (pi_conv 2) 0 [true; false; false; true] = Some (true, [false; true; true; false]).
+Proof. vm_compute. split; reflexivity. Qed.
